@@ -13,6 +13,7 @@ import (
 	"reflect"
 	"sort"
 	"strings"
+	"time"
 
 	"github.com/ozanh/ugo"
 	"github.com/ozanh/ugo/encoder"
@@ -586,6 +587,43 @@ func moduleMapOf(p semProg) *ugo.ModuleMap {
 	return mm
 }
 
+// watchedRun runs the VM; every program of the families terminates within milliseconds, so a run that is
+// still going after 10 s is stopped (Abort, repeatedly) and reported as an error of its own kind.
+func watchedRun(vm *ugo.VM, g ugo.Object, args []ugo.Object) (ugo.Object, error) {
+	type res struct {
+		o ugo.Object
+		e error
+		p any
+	}
+	ch := make(chan res, 1)
+	go func() {
+		defer func() {
+			if p := recover(); p != nil {
+				ch <- res{p: p}
+			}
+		}()
+		o, e := vm.Run(g, args...)
+		ch <- res{o: o, e: e}
+	}()
+	select {
+	case r := <-ch:
+		if r.p != nil {
+			panic(r.p)
+		}
+		return r.o, r.e
+	case <-time.After(10 * time.Second):
+		for i := 0; i < 3000; i++ {
+			vm.Abort()
+			select {
+			case <-ch:
+				i = 3000
+			case <-time.After(time.Millisecond):
+			}
+		}
+		return nil, fmt.Errorf("TIMEOUT: the run did not end within 10 s")
+	}
+}
+
 // semRun compiles and runs a program under opts; returns the canonical observation.
 func semRun(p semProg, cf semCfg, src string) (obs string, compileErr error, panicked any) {
 	opts := cf.Opts
@@ -644,7 +682,7 @@ func semRun(p semProg, cf semCfg, src string) (obs string, compileErr error, pan
 	ugo.PrintWriter = &printed
 	defer func() { ugo.PrintWriter = io.Discard }()
 	vm := ugo.NewVM(bc)
-	ret, rerr := vm.Run(g, args...)
+	ret, rerr := watchedRun(vm, g, args)
 	if cf.Twice || cf.VM2 {
 		printed.Reset()
 	}
@@ -652,12 +690,12 @@ func semRun(p semProg, cf semCfg, src string) (obs string, compileErr error, pan
 		// a cleared VM starts the second run with an empty module cache
 		vm.Clear()
 		g = mkGlobals()
-		ret, rerr = vm.Run(g, args...)
+		ret, rerr = watchedRun(vm, g, args)
 	}
 	if cf.VM2 {
 		// another VM on the same Bytecode: nothing the first run did is visible to it
 		g = mkGlobals()
-		ret, rerr = ugo.NewVM(bc).Run(g, args...)
+		ret, rerr = watchedRun(ugo.NewVM(bc), g, args)
 	}
 	var o []any
 	if rerr != nil {
